@@ -77,11 +77,11 @@ Print Assumptions C17_no_negative_bin_sketch.
     and ex_index_off = the exact index except on [2, 201/100) where it answers 0 instead of 1
     (one bin too low just above an edge, as float64 rounding makes it). *)
 
-Example C17_no_negative_bin_refuted_legacy :
+Theorem C17_no_negative_bin_refuted_legacy :
   exists r : bins,
     convert_store ex_lower ex_lower ex_index_off ex_scale false ex_src = Some r /\
     (get r 0 < w0)%Qc.
-Proof. eexists. split; [vm_compute; reflexivity|vm_compute; reflexivity]. Qed.
+Proof. exact legacy_witness. Qed.   (* legacy_witness is proved by vm_compute *)
 Print Assumptions C17_no_negative_bin_refuted_legacy.
 
 Example C17_legacy_witness_bins :
@@ -298,7 +298,7 @@ Theorem C17_mass_transport :
   (forall x, (0 < x)%Qc -> (lower2 (index2 x) <= x)%Qc /\ (x < lower2 (index2 x + 1)%Z)%Qc) ->
   forall (b r : bins) (t : Qc),
   nonneg b -> convert_store lower1 lower2 index2 scale guard b = Some r ->
-  (gsum (fun out => wleb (lower2 (out + 1)) t) r <= gsum (fun i => wltb (lower1 i * scale)%Qc t) b)%Qc /\
+  (gsum (fun out => wleb (lower2 (out + 1)%Z) t) r <= gsum (fun i => wltb (lower1 i * scale)%Qc t) b)%Qc /\
   (gsum (fun i => wleb (lower1 (i + 1)%Z * scale)%Qc t) b <= gsum (fun out => wltb (lower2 out) t) r)%Qc.
 Proof. exact convert_store_transport. Qed.
 Print Assumptions C17_mass_transport.
